@@ -105,7 +105,7 @@ package carddav
 //@   | && len(w.Params) == len(p.Params) && (forall j :: 0 <= j && j < len(p.Params) ==> paramRel(w.Params[j], p.Params[j]))
 //@ spec paramEq(a ParamFilter, b ParamFilter) bool = a.Name == b.Name && a.IsNotDefined == b.IsNotDefined
 //@   | && (a.TextMatch != nil) == (b.TextMatch != nil) && (a.TextMatch != nil ==> *a.TextMatch == *b.TextMatch)
-//@ spec propEq(a PropFilter, b PropFilter) bool = a.Name == b.Name && a.Test == b.Test && a.IsNotDefined == b.IsNotDefined
+//@ spec opaque propEq(a PropFilter, b PropFilter) bool = a.Name == b.Name && a.Test == b.Test && a.IsNotDefined == b.IsNotDefined
 //@   | && len(a.TextMatches) == len(b.TextMatches) && (forall j :: 0 <= j && j < len(b.TextMatches) ==> a.TextMatches[j] == b.TextMatches[j])
 //@   | && len(a.Params) == len(b.Params) && (forall j :: 0 <= j && j < len(b.Params) ==> paramEq(a.Params[j], b.Params[j]))
 
@@ -160,7 +160,7 @@ package carddav
 //@   loop 2 invariant B3: len(pf.Params) == #i && (cap(pf.Params) == 0 || fresh(pf.Params)) && (forall j :: 0 <= j && j < #i ==> paramRel(el.Params[j], pf.Params[j]))
 //@   loop 2 invariant B4: forall j :: 0 <= j && j < #i ==> !(el.Params[j].IsNotDefined != nil && el.Params[j].TextMatch != nil)
 //@ func carddav.verifPropFilterRoundTrip(pf) (r, err)
-//@   reveal propRel
+//@   reveal propRel, propEq
 //@   requires R1: pf != nil
 //@   requires R2: forall j :: 0 <= j && j < len(pf.Params) ==> !(pf.Params[j].IsNotDefined && pf.Params[j].TextMatch != nil)
 //@   ensures RT1: err == nil <==> !(pf.IsNotDefined && (len(pf.TextMatches) > 0 || len(pf.Params) > 0))
@@ -285,3 +285,26 @@ package carddav
 //@   | && (gaoErr(be, ctx, path, req) != nil
 //@   |     ? (r.Hrefs[0].Path == path && r.Status != nil && r.Status.Code == errStatus(gaoErr(be, ctx, path, req)))
 //@   |     : r.Hrefs[0].Path == gaoResult(be, ctx, path, req).Path)
+
+//@ -- C09 composition: what the client puts on the wire (wireDenotes) and what the server hands to the backend
+//@ -- (queryDenotes) compose to the caller's query, given that the XML layer transports the address-data element
+//@ -- faithfully (T-xml, stated as the hypothesis txmlAddressData).
+//@ spec txmlAddressData(p *internal.Prop) bool = p != nil && len(p.Raw) >= 1 && dynPtr(p.Raw[0].out, "*addressDataReq") != nil
+//@   | ==> decodedOk(p, "addressDataReq") && decoded(p, "addressDataReq") == *dynPtr(p.Raw[0].out, "*addressDataReq")
+//@ spec dataReqEq(a AddressDataRequest, b AddressDataRequest) bool = a.AllProp == b.AllProp
+//@   | && (!b.AllProp ==> len(a.Props) == len(b.Props) && (forall j :: 0 <= j && j < len(b.Props) ==> a.Props[j] == b.Props[j]))
+//@ spec queryEq(a *AddressBookQuery, b *AddressBookQuery) bool = string(a.FilterTest) == string(b.FilterTest)
+//@   | && len(a.PropFilters) == len(b.PropFilters) && (forall j :: 0 <= j && j < len(b.PropFilters) ==> propEq(a.PropFilters[j], b.PropFilters[j]))
+//@   | && (b.Limit > 0 ? a.Limit == b.Limit : a.Limit == 0)
+//@   | && dataReqEq(a.DataRequest, b.DataRequest)
+//@ lemma C09_query_composition: forall w *addressbookQuery, q *AddressBookQuery, q2 *AddressBookQuery ::
+//@   | w != nil && q != nil && q2 != nil && txmlAddressData(w.Prop) && wireDenotes(w, q) && queryDenotes(q2, w)
+//@   | ==> string(q2.FilterTest) == string(q.FilterTest) && len(q2.PropFilters) == len(q.PropFilters)
+//@   |   && (q.Limit > 0 ? q2.Limit == q.Limit : q2.Limit == 0) && dataReqEq(q2.DataRequest, q.DataRequest)
+//@   |   && (forall j :: 0 <= j && j < len(q.PropFilters) ==> propRel(w.Filter.Props[j], q.PropFilters[j]) && propEq(q2.PropFilters[j], q.PropFilters[j]))
+//@   using C09_prop, C09_datareq
+//@   reveal nothing
+//@ lemma C09_tm: forall w textMatch, a TextMatch, b TextMatch :: tmRel(w, a) && tmRel(w, b) ==> a == b
+//@ lemma C09_param: forall w paramFilter, a ParamFilter, b ParamFilter :: paramRel(w, a) && paramRel(w, b) ==> paramEq(a, b)
+//@ lemma C09_prop: forall w propFilter, a PropFilter, b PropFilter :: propRel(w, a) && propRel(w, b) ==> propEq(a, b)
+//@ lemma C09_datareq: forall w addressDataReq, a AddressDataRequest, b AddressDataRequest :: dataReqCarried(w, b) && dataReqRel(a, w) ==> dataReqEq(a, b)
